@@ -130,7 +130,7 @@ static void add_coeffs(nset* S, const unsigned with_coin[16], const unsigned wit
 }
 
 typedef struct hit { int kind; long offset; needle nd; } hit;
-static uint64_t g_bytes_scanned, g_needles_searched;
+static uint64_t g_bytes_scanned, g_needles_searched, g_static_scanned;
 static int scan(const job* j, const nset* S, hit* hits, int cap) {
     uint8_t* lo = stk; uint8_t* hi = (uint8_t*)j->frame_lo;
     while (lo < hi && *lo == 0xA5) ++lo;                 /* untouched part of the stack */
@@ -303,7 +303,10 @@ static void report(bool control, const shape* sh, const char* what, const char* 
 }
 
 static void one_case(const shape* sh, pv_rng* rng, bool control) {
-    static job j; static nset S; static hit hits[64];
+    static job* jp; static nset* Sp; static hit* hits;
+    if (!jp) { jp = malloc(sizeof *jp); Sp = malloc(sizeof *Sp); hits = malloc(64 * sizeof *hits); }
+#define j (*jp)
+#define S (*Sp)
     if (!build(sh, rng, &j, &S)) { pv_countf(1, "shape.unbuildable.%s.%s", API_NAME[sh->api], PATH_NAME[sh->path]); return; }
     pv_w->memzero_mode = control ? 1 : 0;
     run_on_owned_stack(&j);
@@ -321,6 +324,43 @@ static void one_case(const shape* sh, pv_rng* rng, bool control) {
         if (v & PV_FREE_NOTZERO) { char key[128]; snprintf(key, sizeof key, "C16/freed-block-not-zero/%s", API_NAME[sh->api]); pv_violation(key, "%s path=%s: block handed to free still holds data", API_NAME[sh->api], PATH_NAME[sh->path]); }
         else if (v & PV_FREE_NOWIPE) { char key[128]; snprintf(key, sizeof key, "C16/freed-block-not-wiped-through-memzero/%s", API_NAME[sh->api]); pv_violation(key, "%s path=%s: no injected memzero call of this API call covers the freed block", API_NAME[sh->api], PATH_NAME[sh->path]); }
     }
+    /* (iii) static storage of the whole program (the library has no business keeping copies there either); the
+     * harness keeps its own copies of inputs and needles on the heap, so anything found here was put there by the library */
+    {
+        extern char __data_start[], _end[];
+        uint8_t* lo = (uint8_t*)__data_start; uint8_t* hi = (uint8_t*)_end;
+        g_static_scanned += (uint64_t)(hi - lo);
+        /* single pass with a tiny hash index over the first 6 bytes of every byte-needle */
+        enum { HT = 1024 };
+        static int16_t head[HT]; static int16_t nextn[MAXNEEDLE];
+        for (int i = 0; i < HT; ++i) head[i] = -1;
+        int nbyte = 0;
+        for (int i = 0; i < S.n; ++i) {
+            const needle* x = &S.v[i];
+            if (x->kind == N_INDICES || x->n < 6) continue;      /* small integers are meaningless in static data without the offset confirmation */
+            uint64_t k = 0; memcpy(&k, x->b, 6);
+            unsigned h = (unsigned)((k * 0x9e3779b97f4a7c15ull) >> 54) & (HT - 1);
+            nextn[i] = head[h]; head[h] = (int16_t)i; ++nbyte;
+        }
+        const needle* found = NULL; uint8_t* at = NULL;
+        const uint8_t* skip_lo = (const uint8_t*)pv_langs; const uint8_t* skip_hi = skip_lo + sizeof pv_langs;     /* the model's word tables: pointers and lengths only, 1.8 MB */
+        if (nbyte) for (uint8_t* p = lo; p + 6 <= hi && !found; ++p) {
+            if (p >= skip_lo && p < skip_hi) { p = (uint8_t*)skip_hi - 1; continue; }
+            uint64_t k = 0; memcpy(&k, p, 6);
+            unsigned h = (unsigned)((k * 0x9e3779b97f4a7c15ull) >> 54) & (HT - 1);
+            for (int i = head[h]; i >= 0; i = nextn[i]) {
+                const needle* x = &S.v[i];
+                if ((size_t)(hi - p) >= (size_t)x->n && !memcmp(p, x->b, (size_t)x->n)) { found = x; at = p; break; }
+            }
+        }
+        if (found) {
+            if (control) PV_COUNT("control.static_hits", 1);
+            else {
+                char key[200]; snprintf(key, sizeof key, "C16/static-residue/%s/%s", API_NAME[sh->api], NKIND[found->kind]);
+                pv_violation(key, "%s path=%s lang=%s: %d-byte needle %s found in static storage at data+%ld after the call returned", API_NAME[sh->api], PATH_NAME[sh->path], pv_langs[sh->lang].name_en, found->n, pv_hex(found->b, (size_t)found->n), (long)(at - lo));
+            }
+        }
+    }
     /* (ii) dead stack */
     int nh = scan(&j, &S, hits, 64);
     bool distinct_done = false;
@@ -333,7 +373,9 @@ static void one_case(const shape* sh, pv_rng* rng, bool control) {
         PV_COUNT("indices.candidates", 1);
         bool confirmed = false;
         for (int rep = 0; rep < 2 && !confirmed; ++rep) {
-            static job j2; static nset S2;
+            static job* j2p; static nset* S2p; if (!j2p) { j2p = malloc(sizeof *j2p); S2p = malloc(sizeof *S2p); }
+#define j2 (*j2p)
+#define S2 (*S2p)
             pv_rng r2; pv_rng_seed(&r2, pv_rand64(rng), 0xc0f1, (uint64_t)rep);
             if (!build(sh, &r2, &j2, &S2) || !S2.have_coeff) break;
             pv_w->memzero_mode = control ? 1 : 0;
@@ -354,6 +396,10 @@ static void one_case(const shape* sh, pv_rng* rng, bool control) {
     if (!control && !distinct_done) PV_DISTINCT("nontrivial", pv_mix(pv_mix((uint64_t)sh->api * 16 + (uint64_t)sh->path, (uint64_t)sh->lang), pv_hash(S.v, sizeof(needle) * (size_t)(S.n < 8 ? S.n : 8), 0)));
     if (!control && pv_randn(rng, 400) == 0) pv_sample(API_NAME[sh->api], "%s path=%s lang=%s: %d needles searched in the dead stack, %d hits", API_NAME[sh->api], PATH_NAME[sh->path], pv_langs[sh->lang].name_en, S.n, nh);
     dispose(&j);
+#undef j
+#undef S
+#undef j2
+#undef S2
 }
 
 static uint64_t n_scan(void) { return (uint64_t)g_nshapes * pv_scaled(12, 600); }
@@ -372,7 +418,9 @@ static void init(void) {
     make_shapes();
     /* warm-up: one call of every shape so that nothing is resolved or initialised lazily inside a monitored call */
     pv_rng r; pv_rng_seed(&r, 1, 2, 3);
-    for (int i = 0; i < g_nshapes; ++i) { static job j; static nset S; if (build(&g_shapes[i], &r, &j, &S)) { run_on_owned_stack(&j); dispose(&j); } }
+    { job* wj = malloc(sizeof *wj); nset* wS = malloc(sizeof *wS);
+      for (int i = 0; i < g_nshapes; ++i) if (build(&g_shapes[i], &r, wj, wS)) { run_on_owned_stack(wj); dispose(wj); }
+      free(wj); free(wS); }
     pv_info("rule", "every API function x every exit path x language, high-entropy inputs; each call runs on a driver-owned, pre-patterned thread stack which is "
                     "searched afterwards for 8-byte windows of secret/password/mask, phrase tokens and token pairs (NFKD and NFC), and runs of word indices (confirmed with an "
                     "independent seed at the same offset); every block reaching the injected free is inspected. non-trivial = a call that took the intended exit path and whose "
@@ -381,6 +429,7 @@ static void init(void) {
 static void fini(void) {
     pv_countf(g_bytes_scanned, "scan.bytes");
     pv_countf(g_needles_searched, "scan.needles");
+    pv_countf(g_static_scanned, "scan.static_bytes");
 }
 int main(int argc, char** argv) {
     static const pv_section secs[] = { { "scan", n_scan, run_scan }, { "control", n_control, run_control } };
